@@ -36,6 +36,10 @@ SPEC = {
 }
 
 MUTATIONS = """
+Seeded change /tmp/seedout/C34/patch.diff (WriteFile stages its temp file in $TMPDIR): exit 1 -- fact tempThenRename=false
+ (C34_facts_ok fails), 20 disagreements, oracle VIOLATIONs source-modified and bystander-tree-modified with concrete inputs
+ (destination pre-existing and hard-linked to a source / sibling file; the harness points TMPDIR at /dev/shm, another file system).
+
 Dry-runs on a scratch copy (VERIF_REPO=/var/tmp/mC34 ./check C34 quick), findings loaded from findings_inbox/C34.jsonl:
  M1 copy.go:66  remove `if fileMode.IsSymlink() { return copySymlink(name, dest) }`
                                                    -> exit 1: fact callbackOrder changes (C34_facts_ok fails), 21 disagreements, oracle VIOLATION
